@@ -1,10 +1,14 @@
-(* C02 — failures propagate like sequential exceptions.  Pure theorems about asynq's unwrap
-   (async_task.py 427-470) for every yielded structure, of any nesting and size:
-   unwrap fails iff some leaf fails, with the error of the FIRST failing leaf in written order
-   (a non-future object counts as a failing leaf carrying TypeError), and succeeds iff every leaf
-   succeeded.  The scheduling half (delivery only after all siblings completed, same exception
-   instance) is covered by the correspondence and the in-process monitors, not by a theorem. *)
-From Asynq Require Import Prog proofs.ProgProofs.
+(* C02 — failures propagate like sequential exceptions, after all siblings finish.
+   Statements only; proofs in proofs/ProgProofs.v, proofs/MachineC01.v, proofs/MachineC02.v.
+
+   (1) pure, every structure: unwrap fails iff some leaf fails, with the error of the FIRST failing
+       leaf in written order (a non-future counts as a failing leaf with TypeError);
+   (2) machine, tree programs: a task is resumed only when every future it yielded is computed;
+   (3) machine, tree programs: what it receives is unwrap of those futures' own outcomes (exception
+       ids are instance identities), and an uncaught one becomes the task's and finally value()'s
+       outcome - the latter is C01_async_eq_seq_tree, whose [eval] propagates exception ids.
+   Programs with stored handles and synchronous re-entry: correspondence + monitors only. *)
+From Asynq Require Import Machine Seq proofs.ProgProofs proofs.MachineC08 proofs.MachineC01 proofs.MachineC02.
 
 Theorem C02_first_failing_future_wins : forall (A : Type) (look : A -> outcome) (s : ystruct A),
   match unwrap look s with
@@ -13,3 +17,33 @@ Theorem C02_first_failing_future_wins : forall (A : Type) (look : A -> outcome) 
   end.
 Proof. exact (fun A look s => unwrap_first_error look s). Qed.
 Print Assumptions C02_first_failing_future_wins.
+
+Theorem C02_delivered_only_when_all_siblings_done : forall P, pointwise P -> forall p, tree p -> forall n t,
+  let h := fst (create [] (FTask p) (st0 P)) in
+  let s1 := snd (create [] (FTask p) (st0 P)) in
+  no_unwind P n (start h s1) -> c_mode (run P n (start h s1)) = MResume t ->
+  exists tk, get t (c_st (run P n (start h s1))) = Some (mkFut None (KTask tk)) /\
+    forall x, In (RFut x) (leaves (tk_last tk)) -> computed x (c_st (run P n (start h s1))) = true.
+Proof. exact resume_guard_tree. Qed.
+Print Assumptions C02_delivered_only_when_all_siblings_done.
+
+Theorem C02_delivered_is_unwrap_of_own_outcomes : forall P, pointwise P -> forall p, tree p -> forall n t,
+  let h := fst (create [] (FTask p) (st0 P)) in
+  let s1 := snd (create [] (FTask p) (st0 P)) in
+  no_unwind P n (start h s1) -> c_mode (run P n (start h s1)) = MResume t ->
+  exists tk k spec, get t (c_st (run P n (start h s1))) = Some (mkFut None (KTask tk)) /\
+    tk_gen tk = Some k /\
+    c_mode (step P (run P n (start h s1))) =
+      MRun t (k (unwrap (look (c_st (run P n (start h s1)))) (tk_last tk))) /\
+    unwrap (look (c_st (run P n (start h s1)))) (tk_last tk) = unwrap (look_spec spec) (tk_last tk) /\
+    spec t = Some (eval (k (unwrap (look_spec spec) (tk_last tk)))).
+Proof. exact delivered_is_unwrap_tree. Qed.
+Print Assumptions C02_delivered_is_unwrap_of_own_outcomes.
+
+Theorem C02_uncaught_failure_is_the_outcome_of_value : forall P p n o,
+  pointwise P -> tree p ->
+  let h := fst (create [] (FTask p) (st0 P)) in
+  let s1 := snd (create [] (FTask p) (st0 P)) in
+  no_unwind P n (start h s1) -> c_mode (run P n (start h s1)) = MDone o -> o = eval p.
+Proof. exact async_eq_seq_tree. Qed.
+Print Assumptions C02_uncaught_failure_is_the_outcome_of_value.
